@@ -55,6 +55,11 @@ def _call_with_timeout(func: Callable[[], T], timeout_s: float) -> T:
     try:
         return future.result(timeout=timeout_s)
     except FutureTimeoutError as exc:
+        if future.done() and future.exception() is exc:
+            # The operation itself raised a TimeoutError (the builtin one is
+            # concurrent.futures.TimeoutError): that is the attempt's own failure,
+            # not an attempt timeout, so surface it unchanged.
+            raise
         future.cancel()
         executor.shutdown(wait=False, cancel_futures=True)
         raise TimeoutError(f"Attempt exceeded {timeout_s} seconds.") from exc
